@@ -168,6 +168,8 @@ func (l *Locks) lockClass(v ssa.Value) string {
 				}
 			}
 		}
+	case *ssa.MakeInterface:
+		return l.lockClass(a.X)
 	case *ssa.Parameter:
 		// a mutex handed to a helper (closeLocked(mu, …)): the class every call site passes, when they agree
 		if c, ok := l.aliasMemo["param:"+a.Parent().String()+"."+a.Name()]; ok {
@@ -228,6 +230,23 @@ func itoa(n int) string {
 
 // AsLockOp decodes a call as a mutex operation.
 func (l *Locks) AsLockOp(c *ssa.CallCommon) *LockOp {
+	if c.IsInvoke() {
+		// l.Lock() on a sync.Locker: the class of the mutex behind the interface value, when it resolves to one
+		if c.Value.Type().String() != "sync.Locker" {
+			return nil
+		}
+		switch c.Method.Name() {
+		case "Lock", "Unlock":
+			n0 := len(l.Unknown)
+			cls := l.lockClass(c.Value)
+			if strings.HasPrefix(cls, "?") || strings.HasPrefix(cls, "*") {
+				l.Unknown = l.Unknown[:n0] // an unresolved Locker is treated as before: not a recognised lock operation
+				return nil
+			}
+			return &LockOp{cls, c.Method.Name()}
+		}
+		return nil
+	}
 	f := c.StaticCallee()
 	if f == nil || f.Pkg == nil || f.Pkg.Pkg.Path() != "sync" || f.Signature.Recv() == nil {
 		return nil
